@@ -40,7 +40,7 @@ def strat():
 
     @st.composite
     def case(draw):
-        n_lines = draw(st.integers(1, 4))
+        n_lines = draw(st.integers(1, 4)) if draw(st.integers(0, 11)) else draw(st.integers(20, 45))
         n_eng = draw(st.integers(1, 4))
         geoms = []
         y = 50
